@@ -104,6 +104,84 @@ func checkC17(e *Engine, r *Report) {
 		}
 	}
 
+	// ---- rule 1b: a group configuration IS delivered while no node-specific one exists, and an event's object is
+	// what is compared and recorded (a present object is not treated as a deletion) -------------------------------
+	{
+		notDup, sc := dup(upGroup, false)
+		if sc != nil {
+			noNode := func(cond ssa.Value) (bool, bool) {
+				if k, v := notDup(cond); k {
+					return k, v
+				}
+				return fieldNil(fNode, true)(cond)
+			}
+			r.MustPass("R2:group-delivered-without-node", "R2 group never overrides node", "with no node-specific configuration a non-duplicate group configuration is delivered (through updateConfig)", upGroup, sc.(ssa.Instruction), nil,
+				isUpCfg, noNode)
+		}
+		for _, t := range []struct {
+			fn   *ssa.Function
+			kind string
+		}{{upNode, "node"}, {upGroup, "group"}} {
+			_, scall := dup(t.fn, false)
+			if scall == nil || len(t.fn.Params) < 2 {
+				continue
+			}
+			objP := ssa.Value(t.fn.Params[1])
+			var okV, objV ssa.Value
+			AllInstrs(t.fn, func(in ssa.Instruction) {
+				if ta, ok := in.(*ssa.TypeAssert); ok && ta.CommaOk && sameObject(ta.X, objP) && ta.Referrers() != nil {
+					for _, ref := range *ta.Referrers() {
+						if ex, ok := ref.(*ssa.Extract); ok {
+							if ex.Index == 1 {
+								okV = ex
+							} else {
+								objV = ex
+							}
+						}
+					}
+				}
+			})
+			if okV == nil || objV == nil {
+				r.Undecided("R2:event-object-is-used@"+t.kind, "R3 ownership and routing", "the "+t.kind+" update function asserts the event object to metav1.Object", e.Pos(t.fn.Pos()), t.fn, "no comma-ok type assertion of the parameter")
+				continue
+			}
+			present := func(cond ssa.Value) (bool, bool) {
+				if unspill(cond) == okV {
+					return true, true
+				}
+				if b, ok := cond.(*ssa.BinOp); ok && (b.Op == token.EQL || b.Op == token.NEQ) {
+					if (sameObject(b.X, objP) && isNilConstV(b.Y)) || (sameObject(b.Y, objP) && isNilConstV(b.X)) {
+						return true, b.Op == token.NEQ
+					}
+				}
+				return false, false
+			}
+			ok1 := reachableBlock(t.fn, scall.Block(), present)
+			okArg, why := true, ""
+			if ok1 {
+				a := callArgs(scall)
+				n := 0
+				OriginsUnder(t.fn, a[0], present, func(v ssa.Value) bool {
+					switch v.(type) {
+					case *ssa.Phi, *ssa.ChangeInterface, *ssa.MakeInterface, *ssa.ChangeType:
+						return false
+					}
+					n++
+					if v != objV {
+						okArg, why = false, "compared value may be "+v.String()
+					}
+					return true
+				})
+				if n == 0 {
+					okArg, why = false, "no origin"
+				}
+			} else {
+				why = "a present, well-typed object never reaches the version comparison"
+			}
+			r.Check("R2:event-object-is-used@"+t.kind, "R3 ownership and routing", "a present "+t.kind+" configuration object is what is compared with the current one (it is not taken for a deletion or dropped)", e.InstrPos(scall), t.fn, ok1 && okArg, why, true)
+		}
+	}
+
 	// ---- rule 2: node fallback --------------------------------------------------------
 	{
 		notDup, sc := dup(upNode, false)
